@@ -78,8 +78,17 @@ Definition acl_header (pl : platform) (ty name : string) : string :=
 Fixpoint classify_all (c : cfg) (lines : list string) : list lineclass :=
   match lines with [] => [] | l :: t => line_to_oace c l :: classify_all c t end.
 
+(** the container (an extended ACL / AceGroup) stamps its own type on every item it takes (items
+    setter: item._type = self._type), so a line in standard syntax is rendered in the extended
+    form inside it *)
+Definition stamp_ext (i : aitem) : aitem :=
+  match i with
+  | AIAce t => AIAce (mkTace true (t_seq t) (t_ace t) (t_option_line t))
+  | AIRemark _ _ => i
+  end.
+
 Definition items_of (cl : list lineclass) : list aitem :=
-  flat_map (fun x => match x with LItem i => [i] | _ => [] end) cl.
+  flat_map (fun x => match x with LItem i => [stamp_ext i] | _ => [] end) cl.
 
 Definition aborted (cl : list lineclass) : bool :=
   existsb (fun x => match x with LAbort => true | _ => false end) cl.
